@@ -9,6 +9,9 @@
 #include <stdint.h>
 #include <stdlib.h>
 #include <sys/types.h>
+#include <stdarg.h>
+#include <dlfcn.h>
+#include <sys/syscall.h>
 
 static volatile uint64_t g_state = 0x9E3779B97F4A7C15ULL;
 static volatile uint64_t g_calls = 0;
@@ -43,6 +46,23 @@ int getentropy(void *buf, size_t buflen) {
     if (buflen > 256) return -1;
     getrandom(buf, buflen, 0);
     return 0;
+}
+
+/* The getrandom crate 0.2 (behind rand 0.8: thread_rng, StdRng::from_entropy — e.g. the
+ * layer assignment of hnsw_rs) does not call getrandom() but syscall(SYS_getrandom, ..),
+ * so libc's generic syscall() entry is interposed as well: SYS_getrandom is served from
+ * the same stream, everything else is forwarded untouched. */
+long syscall(long number, ...) {
+    static long (*real)(long, ...) = 0;
+    va_list ap;
+    long a0, a1, a2, a3, a4, a5;
+    va_start(ap, number);
+    a0 = va_arg(ap, long); a1 = va_arg(ap, long); a2 = va_arg(ap, long);
+    a3 = va_arg(ap, long); a4 = va_arg(ap, long); a5 = va_arg(ap, long);
+    va_end(ap);
+    if (number == SYS_getrandom) return (long)getrandom((void *)a0, (size_t)a1, (unsigned int)a2);
+    if (!real) real = (long (*)(long, ...))dlsym(RTLD_NEXT, "syscall");
+    return real(number, a0, a1, a2, a3, a4, a5);
 }
 
 __attribute__((constructor)) static void detrand_init(void) {
